@@ -113,8 +113,8 @@ func caseFromViolation(v *Violation, params map[string]int, orders bool) *replay
 }
 
 func report(id, tier string, ps *PropSpec, results []*RunResult, loadT, wall time.Duration, noReplay bool) int {
-	os.MkdirAll(filepath.Join(verifDir, "evidence"), 0755)
-	os.MkdirAll(filepath.Join(verifDir, "replay"), 0755)
+	os.MkdirAll(filepath.Join(outDir(), "evidence"), 0755)
+	os.MkdirAll(filepath.Join(outDir(), "replay"), 0755)
 	seed := 0
 	if s := os.Getenv("VERIF_SEED"); s != "" {
 		seed, _ = strconv.Atoi(s)
@@ -154,7 +154,7 @@ func report(id, tier string, ps *PropSpec, results []*RunResult, loadT, wall tim
 	validated := 0
 	exit := 0
 	var violLines, knownLines []string
-	old, _ := filepath.Glob(filepath.Join(verifDir, "replay", id+"-*.json"))
+	old, _ := filepath.Glob(filepath.Join(outDir(), "replay", id+"-*.json"))
 	for _, f := range old {
 		os.Remove(f)
 	}
@@ -265,7 +265,7 @@ func report(id, tier string, ps *PropSpec, results []*RunResult, loadT, wall tim
 				}
 			}
 			name := fmt.Sprintf("%s-%s-r%d-%d.json", id, c.Entry, ri, i-nWit)
-			path := filepath.Join(verifDir, "replay", name)
+			path := filepath.Join(outDir(), "replay", name)
 			rec := map[string]interface{}{"property": id, "case": c, "confirmed": confirmed, "tier": tier,
 				"replay_cmd": fmt.Sprintf("cd /verif && ./check %s --replay replay/%s", id, name)}
 			b, _ := json.MarshalIndent(rec, "", " ")
@@ -397,7 +397,7 @@ func report(id, tier string, ps *PropSpec, results []*RunResult, loadT, wall tim
 		"assumptions": ps.Assumptions,
 	}
 	b, _ := json.MarshalIndent(ev, "", " ")
-	os.WriteFile(filepath.Join(verifDir, "evidence", id+".json"), b, 0644)
+	os.WriteFile(filepath.Join(outDir(), "evidence", id+".json"), b, 0644)
 	fmt.Printf("%s %s: paths=%d obligations=%d discharged=%d violations=%d known=%d validated=%d queries=%d wall=%.1fs exit=%d\n",
 		id, tier, total.Paths, total.Obligations, total.Discharged, len(violLines), len(knownLines), validated, solverQ, wall.Seconds(), exit)
 	return exit
@@ -434,4 +434,14 @@ func solversUsed(results []*RunResult) []string {
 	}
 	sort.Strings(out)
 	return out
+}
+
+// outDir is where evidence and replay files go: /verif, unless VERIF_OUT redirects them (used when
+// the engine is pointed at a scratch worktree holding a seeded change, so that the committed
+// evidence only ever comes from runs against /repo).
+func outDir() string {
+	if d := os.Getenv("VERIF_OUT"); d != "" {
+		return d
+	}
+	return verifDir
 }
